@@ -87,13 +87,36 @@ pub fn u64() -> u64 {
     u64::from_le_bytes(a)
 }
 
-/// N unconstrained bytes (Kani draws an array element-wise, so the trace holds N one-byte values)
+#[cfg(kani)]
+pub fn u128() -> u128 {
+    kani::any()
+}
+#[cfg(not(kani))]
+pub fn u128() -> u128 {
+    let v = native::next(16);
+    let mut a = [0u8; 16];
+    a.copy_from_slice(&v);
+    u128::from_le_bytes(a)
+}
+
+/// N unconstrained bytes, drawn 16 at a time as one `u128`.  (Drawn byte by byte, CBMC's
+/// counterexample trace leaves out the bytes the failure does not depend on - e.g. the unused tail of a
+/// 3-byte subtag - and the native replay can no longer tell which draw a recorded value belongs to; a
+/// 16-byte value is either in the trace whole or missing whole, and a missing one is recognisable by
+/// its width.)
 pub fn bytes<const N: usize>() -> [u8; N] {
     let mut a = [0u8; N];
-    let mut i = 0;
-    while i < N {
-        a[i] = u8();
-        i += 1;
+    let mut done = 0;
+    while done < N {
+        let w = u128().to_le_bytes();
+        let mut j = 0;
+        while j < 16 {
+            if done + j < N {
+                a[done + j] = w[j];
+            }
+            j += 1;
+        }
+        done += 16;
     }
     a
 }
